@@ -365,6 +365,30 @@ func qrPairUnits(r *rand.Rand, fn string, limit int) []fw.Unit {
 	for _, p := range ps {
 		us = append(us, fw.U(fn, nil, "equal-bit-count-pair", int64(p.lvl), int64(p.modeA), int64(p.nA), int64(p.modeB), int64(p.nB), r.Int63()))
 	}
+	// version-step pairs: a content one character beyond a version's capacity in one
+	// mode (next version) back to back, in both orders, with a content that exactly
+	// fills that version in another (or the same) mode — the second call must not
+	// inherit anything from the first one's version search
+	var steps []qrPair
+	modes := []int{1, 2, 4}
+	for lvl := 0; lvl < 4; lvl++ {
+		for v := 1; v < 40; v++ {
+			for _, ma := range modes {
+				for _, mb := range modes {
+					over, fill := qrPair{lvl, ma, refdec.QRCapacity(ma, v, lvl) + 1, mb, refdec.QRCapacity(mb, v, lvl)}, qrPair{}
+					fill = qrPair{lvl, over.modeB, over.nB, over.modeA, over.nA}
+					steps = append(steps, over, fill)
+				}
+			}
+		}
+	}
+	r.Shuffle(len(steps), func(i, j int) { steps[i], steps[j] = steps[j], steps[i] })
+	if limit > 0 && len(steps) > limit+limit/2 {
+		steps = steps[:limit+limit/2]
+	}
+	for _, p := range steps {
+		us = append(us, fw.U(fn, nil, "version-step-pair", int64(p.lvl), int64(p.modeA), int64(p.nA), int64(p.modeB), int64(p.nB), r.Int63()))
+	}
 	return us
 }
 
